@@ -550,6 +550,10 @@ def oracle(item, impl):
     else:
         js_of = lambda k: list(range(m))
     if isinstance(impl, str):
+        if m == 14:
+            return ("panic while the <For> over the keyed store field was (re)rendering - a row's AtKeyed handle (src/"
+                    "c11store.rs:85 is the key function, :104 the row's text) did not resolve to an item of the current "
+                    "collection: " + impl)
         return "panic / harness error: " + impl
     if m in (11, 12, 14):
         if len(impl) != len(ls):
